@@ -11,9 +11,10 @@ _lib = {}
 def plan(tier, seed):
     alt = spaces.label_choices(seed, 1)[0]
     if tier == 'quick':
-        blocks = [dict(n=3, m=2, labels='ints', schemes='all'), dict(n=2, m=3, labels='ints', schemes='six'),
+        blocks = [dict(n=3, m=2, labels='ints', schemes='all'), dict(n=2, m=3, labels='ints', schemes='six_t'),
+                  dict(n=3, m=2, labels='ints', schemes='tiny', reuse=False),
                   dict(n=4, m=2, labels='ints', schemes='two', per=40, configs='det'),
-                  dict(n=4, m=1, labels='ints', schemes='six'),
+                  dict(n=4, m=1, labels='ints', schemes='six_t'),
                   dict(n=3, m=2, labels=alt, schemes='two')]
     else:
         blocks = [dict(n=4, m=2, labels='ints', schemes='six', per=40), dict(n=3, m=3, labels='ints', schemes='four', per=40),
